@@ -249,9 +249,9 @@ func gen(seed uint64, tier string) {
 	defer out.Flush()
 	emit := func(s string) { fmt.Fprintln(out, s) }
 	r := vproto.NewRng(seed)
-	nGT, nH := 6000, 700
+	nGT, nH := 10000, 2000
 	if tier == "thorough" {
-		nGT, nH = 120000, 12000
+		nGT, nH = 150000, 20000
 	}
 	// fixed history corpus: the observations of DESIGN 1.1 and their neighbours
 	F := vproto.F2H
